@@ -364,8 +364,13 @@ func safeLoad(ctx context.Context, root string) loadOutcome {
 }
 
 func loaderDriver(args []string) error {
-	if len(args) != 4 {
-		return fmt.Errorf("usage: loader <cases.json> <scratch> <out.json> <seed>")
+	if len(args) != 4 && len(args) != 6 {
+		return fmt.Errorf("usage: loader <cases.json> <scratch> <out.json> <seed> [<shard> <shards>]")
+	}
+	shard, shards := 0, 1
+	if len(args) == 6 {
+		fmt.Sscan(args[4], &shard)
+		fmt.Sscan(args[5], &shards)
 	}
 	var cs lCases
 	if err := readJSON(args[0], &cs); err != nil {
@@ -430,6 +435,9 @@ func loaderDriver(args []string) error {
 	}
 	var samplesForCorruption []string
 	for ci, c := range cs.Packages {
+		if ci%shards != shard {
+			continue
+		}
 		want := normalise(c.Expected)
 		for _, r := range renderers {
 			if !r.can(c.Pkg) {
@@ -480,7 +488,10 @@ func loaderDriver(args []string) error {
 	// annotation line sequences through the real Makefile loader
 	lineText := map[string]string{"marker": "# @grog", "comment-name": "# name: x", "comment-tags": "# tags: [a]", "comment-badyaml": "# tags: [a",
 		"blank": "", "rule": "r:", "other": "echo hi"}
-	for _, lc := range cs.Lines {
+	for li, lc := range cs.Lines {
+		if li%shards != shard {
+			continue
+		}
 		root, pdir, err := mkRoot()
 		if err != nil {
 			return err
@@ -515,6 +526,12 @@ func loaderDriver(args []string) error {
 				add("annotation-targets-differ", "makefile-lines", lc.Seq, w, names)
 			}
 		}
+	}
+	if shard != 0 {
+		if out == nil {
+			out = []dis{}
+		}
+		return writeJSON(args[2], map[string]any{"counts": counts, "disagreements": out})
 	}
 	// structural corruptions: an error, never a panic or a hang
 	corrupt := []struct{ name, old, new string }{
